@@ -244,3 +244,17 @@ def run(ck):
     casts = [e for e in qf.events("cast") if "round" in ((e.get("sub") or {}).get("t") or "") or "rint" in ((e.get("sub") or {}).get("t") or "")]
     ck.ob("C16-R5", "Q::fromFloat/rounds", bool(rounds) and bool(casts), qf.loc, qf,
           "static_cast<Type>(round(f * 100.0))" if rounds and casts else "the fraction is converted to hundredths by truncation: q=0.29 is read back as 0.28")
+
+    # ---------------- R3 (Host): one grammar for host[:port] ----------------
+    hp = lib.single(prog, HH + "Host::parse")
+    uses_ap = any(e["k"] in ("decl", "construct", "call") and "AddressParser" in ((e.get("ctor") or "") + (e.get("cls") or "") + (e.get("callee") or "") + (e.get("type") or "")) for e in hp.events())
+    colon_split = [e for e in hp.events("call") if (e.get("callee") or "").rsplit("::", 1)[-1] in ("find", "rfind", "find_first_of", "find_last_of") and
+                   any(a_.get("const") in ("c:58", "s::") for a_ in e.get("args", []))]
+    bracket = any(a_.get("const") in ("c:93", "c:91", "s:]", "s:[") for e in hp.events("call") for a_ in e.get("args", [])) or \
+        any((b.term or {}).get("rconst") in ("c:93", "c:91") for b in hp.blocks.values())
+    ok_ = uses_ap or not colon_split or bracket
+    ck.ob("C16-R3", "Host::parse/brackets-before-colon", ok_, colon_split[0].loc if colon_split else hp.loc, hp,
+          "host[:port] is split by the address parser (which knows bracketed IPv6 literals)" if uses_ap else
+          ("splits at a ':' it looks for itself, with a bracket test" if ok_ else
+           "the Host value is split at a ':' found by %s without looking at brackets: the colons of an IPv6 literal like [::1] are taken for the port separator"
+           % colon_split[0]["callee"].rsplit("::", 1)[-1]))
